@@ -1,12 +1,33 @@
-(* Dict keys as Python ints (Model/Constraints.v, z* definitions).
-   1. For non-negative keys the int-keyed model coincides with the natural-number model, so every lemma of
-      ConstraintsProofs.v / ConstraintsProofsLoop.v transfers (the `z...` theorems below).
-   2. With a negative key the double-constraint scan (raw keys) and the registration (Python indexing, wrap-around)
-      disagree about which mode is addressed: refutation witnesses. *)
+(* Dict keys as Python ints (Model/Constraints.v, z* definitions): the scan normalises a key with mode_index, the
+   registration indexes a Python list.  For keys in [-n, n) the int-keyed model coincides with the natural-number
+   model applied to the normalised keys; a key outside that range makes the scan raise.  Every theorem of
+   ConstraintsProofs.v / ConstraintsProofsLoop.v transfers, for ALL int keys. *)
 From Coq Require Import List Arith Bool Lia ZArith.
 From TLV Require Import Base.PyList Base.Tensor.
 From TLV Require Import Model.Constraints Proofs.ConstraintsProofs Proofs.ConstraintsProofsLoop.
 Import ListNotations.
+
+(* generic list facts *)
+Lemma nodup_or_collision {A} (f : A -> nat) : forall l : list A,
+  NoDup (map f l) \/ exists l1 a l2 b l3, l = l1 ++ a :: l2 ++ b :: l3 /\ f a = f b.
+Proof.
+  induction l as [|a r IH]; simpl; [left; constructor|].
+  destruct IH as [N | (l1 & x & l2 & y & l3 & E & Hf)].
+  - destruct (in_dec Nat.eq_dec (f a) (map f r)) as [Hin | Hn].
+    + right. apply in_map_iff in Hin. destruct Hin as (b & Hb & Hin). apply in_split in Hin. destruct Hin as (l2 & l3 & ->).
+      exists [], a, l2, b, l3. split; [reflexivity | congruence].
+    + left. constructor; assumption.
+  - right. exists (a :: l1), x, l2, y, l3. split; [rewrite E; reflexivity | exact Hf].
+Qed.
+
+Lemma NoDup_map_inj_in {A B} (f : A -> B) : forall l, NoDup (map f l) -> forall a b, In a l -> In b l -> f a = f b -> a = b.
+Proof.
+  induction l as [|x r IH]; intros N a b Ha Hb E; simpl in *; [contradiction|].
+  inversion N as [|? ? Nx Nr]; subst.
+  destruct Ha as [-> | Ha]; destruct Hb as [-> | Hb]; auto.
+  - exfalso. apply Nx. rewrite E. apply in_map. exact Hb.
+  - exfalso. apply Nx. rewrite <- E. apply in_map. exact Ha.
+Qed.
 
 Section Keys.
   Context {P : Type} (truthy : P -> bool).
@@ -27,89 +48,51 @@ Section Keys.
     | ZDict d => exists key, In (key, p) d /\ addresses n key m
     end.
 
-  (* Python dicts have distinct keys *)
+  (* Python dicts have distinct keys; keyword names are distinct *)
   Definition zwf_spec (s : zspec) : Prop := match s with ZDict d => NoDup (map fst d) | _ => True end.
-  Definition nonneg_spec (s : zspec) : Prop := match s with ZDict d => Forall (fun kp => (0 <= fst kp)%Z) d | _ => True end.
-
   Definition zwf_specs (sp : list (kind * zspec)) : Prop :=
     NoDup (map fst sp) /\ Forall (fun a => zwf_spec (snd a)) sp.
-  Definition nonneg_specs (sp : list (kind * zspec)) : Prop := Forall (fun a => nonneg_spec (snd a)) sp.
 
+  (* two different keywords address one mode *)
   Definition zdouble (n : nat) (sp : list (kind * zspec)) : Prop :=
     exists k1 s1 k2 s2 m p1 p2, In (k1, s1) sp /\ In (k2, s2) sp /\ k1 <> k2 /\ zrequested n s1 m p1 /\ zrequested n s2 m p2.
-  Definition zout_of_range (n : nat) (sp : list (kind * zspec)) : Prop :=
-    exists k s m p, In (k, s) sp /\ zrequested n s m p /\ n <= m.
+  (* one dict names a mode twice, by two different keys ({2: a, -1: b} on order 3) *)
+  Definition zself_alias (n : nat) (sp : list (kind * zspec)) : Prop :=
+    exists k d key1 p1 key2 p2 m, In (k, ZDict d) sp /\ In (key1, p1) d /\ In (key2, p2) d /\ key1 <> key2 /\
+                                  addresses n key1 m /\ addresses n key2 m.
+  (* a keyword addresses a mode that does not exist: a mode >= n, or a dict key below -n *)
+  Definition zno_mode (n : nat) (sp : list (kind * zspec)) : Prop :=
+    (exists k s m p, In (k, s) sp /\ zrequested n s m p /\ n <= m) \/
+    (exists k d key p, In (k, ZDict d) sp /\ In (key, p) d /\ (key < - Z.of_nat n)%Z).
 
-  (* ---------------------------------------------------------------- the bridge *)
-  Definition nat_key (kp : Z * P) : nat * P := (Z.to_nat (fst kp), snd kp).
-  Definition nat_spec (s : zspec) : spec :=
-    match s with
-    | ZNone => SNone
-    | ZScalar p => SScalar p
-    | ZList l => SList l
-    | ZDict d => SDict (map nat_key d)
-    end.
-  Definition nat_specs (sp : list (kind * zspec)) : list (kind * spec) := map (fun a => (fst a, nat_spec (snd a))) sp.
-
-  Definition rmapZ (r : res (list nat)) : res (list Z) := match r with Ok s => Ok (map Z.of_nat s) | Err => Err end.
-
-  Lemma zspec_truthy_nat s : zspec_truthy truthy s = spec_truthy truthy (nat_spec s).
-  Proof. destruct s as [|p|l|d]; simpl; auto. destruct d; reflexivity. Qed.
-
-  Lemma zkey_nat_key d : Forall (fun kp : Z * P => (0 <= fst kp)%Z) d -> map zkey (map nat_key d) = d.
+  Lemma resolve_spec n key m : resolve n key = Some m <-> addresses n key m /\ m < n.
   Proof.
-    induction 1 as [|[key p] r H _ IH]; simpl; [reflexivity|]. rewrite IH. f_equal.
-    unfold zkey, nat_key. simpl in *. rewrite Z2Nat.id by exact H. reflexivity.
+    unfold resolve, addresses.
+    destruct (Z.leb_spec 0 key) as [Hk | Hk].
+    - destruct (Z.ltb_spec key (Z.of_nat n)) as [Hl | Hl].
+      + split.
+        * intros E. inversion E; subst. split; [left; rewrite Z2Nat.id; auto | lia].
+        * intros ([E | (Hn & _)] & Hm); [|lia]. subst. rewrite Nat2Z.id. reflexivity.
+      + split; [discriminate|]. intros ([E | (Hn & _)] & Hm); lia.
+    - destruct (Z.leb_spec (- Z.of_nat n) key) as [Hl | Hl].
+      + split.
+        * intros E. inversion E; subst. split; [right; split; [lia | rewrite Z2Nat.id; lia] | lia].
+        * intros ([E | (Hn & E)] & Hm); [lia|]. rewrite E, Nat2Z.id. reflexivity.
+      + split; [discriminate|]. intros ([E | (Hn & E)] & Hm); lia.
   Qed.
 
-  Lemma zassigns_nat n s : nonneg_spec s -> zassigns truthy n s = map zkey (assigns truthy n (nat_spec s)).
+  Lemma resolve_none n key : resolve n key = None <-> (Z.of_nat n <= key)%Z \/ (key < - Z.of_nat n)%Z.
   Proof.
-    intros H. unfold zassigns, assigns. rewrite zspec_truthy_nat.
-    destruct (spec_truthy truthy (nat_spec s)); [|reflexivity].
-    destruct s as [|p|l|d]; simpl; auto.
-    - rewrite map_map. reflexivity.
-    - symmetry. apply zkey_nat_key. exact H.
+    unfold resolve.
+    destruct (Z.leb_spec 0 key); [destruct (Z.ltb_spec key (Z.of_nat n)) | destruct (Z.leb_spec (- Z.of_nat n) key)];
+      split; try discriminate; try lia; auto.
   Qed.
 
-  Lemma fst_zkey l : map fst (map zkey l) = map Z.of_nat (map (@fst nat P) l).
-  Proof. rewrite !map_map. reflexivity. Qed.
+  Lemma addresses_of_nat n i m : addresses n (Z.of_nat i) m <-> i = m.
+  Proof. unfold addresses. split; [intros [E | (Hn & _)]; lia | intros ->; left; reflexivity]. Qed.
 
-  Lemma zmemb_nat a l : zmemb (Z.of_nat a) (map Z.of_nat l) = memb a l.
-  Proof.
-    induction l as [|x r IH]; simpl; [reflexivity|]. rewrite IH. f_equal.
-    destruct (Nat.eqb_spec x a) as [->|Hne].
-    - apply Z.eqb_refl.
-    - apply Z.eqb_neq. lia.
-  Qed.
-
-  Lemma zadd_all_nat : forall ms seen, zadd_all (map Z.of_nat seen) (map Z.of_nat ms) = rmapZ (add_all seen ms).
-  Proof.
-    induction ms as [|a r IH]; intros seen; simpl; [reflexivity|].
-    rewrite zmemb_nat. destruct (memb a seen); [reflexivity|]. apply (IH (a :: seen)).
-  Qed.
-
-  Lemma zscan_one_nat n seen s : nonneg_spec s ->
-    zscan_one truthy n (map Z.of_nat seen) s = rmapZ (scan_one truthy n seen (nat_spec s)).
-  Proof.
-    intros H. unfold zscan_one, scan_one. rewrite zspec_truthy_nat.
-    destruct (spec_truthy truthy (nat_spec s)) eqn:T; [|reflexivity].
-    pose proof (zassigns_nat n s H) as A.
-    destruct s as [|p|l|d].
-    - discriminate T.
-    - simpl. destruct seen as [|x seen]; simpl; [|reflexivity]. apply (zadd_all_nat (seq 0 n) []).
-    - simpl nat_spec. cbv iota. rewrite A, fst_zkey. apply zadd_all_nat.
-    - simpl nat_spec. cbv iota. rewrite A, fst_zkey. apply zadd_all_nat.
-  Qed.
-
-  Lemma zscan_nat n : forall sp seen, nonneg_specs sp ->
-    zscan truthy n (map Z.of_nat seen) sp = rmapZ (scan truthy n seen (nat_specs sp)).
-  Proof.
-    induction sp as [|[k s] r IH]; intros seen H; simpl; [reflexivity|].
-    inversion H as [|? ? Hs Hr]; subst. simpl in Hs.
-    rewrite zscan_one_nat by exact Hs.
-    destruct (scan_one truthy n seen (nat_spec s)) as [seen1|]; simpl; [|reflexivity].
-    apply IH. exact Hr.
-  Qed.
+  Lemma addresses_fun n key m m' : addresses n key m -> addresses n key m' -> m = m'.
+  Proof. unfold addresses. intros [E | (H1 & E)] [E' | (H1' & E')]; lia. Qed.
 
   Lemma resolve_of_nat n m : resolve n (Z.of_nat m) = if m <? n then Some m else None.
   Proof.
@@ -118,155 +101,320 @@ Section Keys.
     rewrite Nat2Z.id. reflexivity.
   Qed.
 
+  (* ---------------------------------------------------------------- the bridge: normalised keys *)
+  Definition normZ (n : nat) (key : Z) : nat := match resolve n key with Some m => m | None => n end.
+  Definition norm_key (n : nat) (kp : Z * P) : nat * P := (normZ n (fst kp), snd kp).
+  Definition norm_spec (n : nat) (s : zspec) : spec :=
+    match s with
+    | ZNone => SNone
+    | ZScalar p => SScalar p
+    | ZList l => SList l
+    | ZDict d => SDict (map (norm_key n) d)
+    end.
+  Definition norm_specs (n : nat) (sp : list (kind * zspec)) : list (kind * spec) :=
+    map (fun a => (fst a, norm_spec n (snd a))) sp.
+
+  Definition in_range_spec (n : nat) (s : zspec) : Prop :=
+    match s with ZDict d => Forall (fun kp => resolve n (fst kp) <> None) d | _ => True end.
+  Definition in_range_specs (n : nat) (sp : list (kind * zspec)) : Prop := Forall (fun a => in_range_spec n (snd a)) sp.
+  Definition bad_key (n : nat) (sp : list (kind * zspec)) : Prop :=
+    exists k d key p, In (k, ZDict d) sp /\ In (key, p) d /\ resolve n key = None.
+
+  Lemma in_range_dec n : forall sp, in_range_specs n sp \/ bad_key n sp.
+  Proof.
+    induction sp as [|[k s] r IH]; [left; constructor|].
+    destruct IH as [IH | (k' & d & key & p & Hin & Hk & Hr)];
+      [|right; exists k', d, key, p; split; [right; exact Hin | auto]].
+    assert (D : in_range_spec n s \/ exists d key p, s = ZDict d /\ In (key, p) d /\ resolve n key = None).
+    { destruct s as [|q|l|d]; try (left; exact I). simpl.
+      induction d as [|[key p] d' IHd]; [left; constructor|].
+      destruct IHd as [F | (d0 & key' & p' & E & Hin & Hr)].
+      - destruct (resolve n key) eqn:R.
+        + left. constructor; auto. simpl. congruence.
+        + right. exists ((key, p) :: d'), key, p. split; auto. split; [left; reflexivity | exact R].
+      - inversion E; subst d0. right. exists ((key, p) :: d'), key', p'. split; auto. split; [right; exact Hin | exact Hr]. }
+    destruct D as [D | (d & key & p & -> & Hin & Hr)].
+    - left. constructor; assumption.
+    - right. exists k, d, key, p. split; [left; reflexivity | auto].
+  Qed.
+
+  Lemma zspec_truthy_norm n s : zspec_truthy truthy s = spec_truthy truthy (norm_spec n s).
+  Proof. destruct s as [|p|l|d]; simpl; auto. destruct d; reflexivity. Qed.
+
+  Lemma zadd_keys_norm n : forall ks seen, Forall (fun key => resolve n key <> None) ks ->
+    zadd_keys n seen ks = add_all seen (map (normZ n) ks).
+  Proof.
+    induction ks as [|key r IH]; intros seen F; simpl; [reflexivity|].
+    inversion F as [|? ? Hk Hr]; subst.
+    destruct (resolve n key) as [m|] eqn:R; [|congruence].
+    assert (Em : normZ n key = m) by (unfold normZ; rewrite R; reflexivity). rewrite Em.
+    destruct (memb m seen); [reflexivity|]. apply IH. exact Hr.
+  Qed.
+
+  Lemma zadd_keys_bad n : forall ks seen key, In key ks -> resolve n key = None -> zadd_keys n seen ks = Err.
+  Proof.
+    induction ks as [|a r IH]; intros seen key Hin Hr; simpl; [contradiction|].
+    destruct Hin as [-> | Hin].
+    - rewrite Hr. reflexivity.
+    - destruct (resolve n a) as [m|]; [|reflexivity]. destruct (memb m seen); [reflexivity|]. eapply IH; eauto.
+  Qed.
+
+  Lemma zscan_one_norm n seen s : in_range_spec n s ->
+    zscan_one truthy n seen s = scan_one truthy n seen (norm_spec n s).
+  Proof.
+    intros H. unfold zscan_one, scan_one. rewrite (zspec_truthy_norm n).
+    destruct (spec_truthy truthy (norm_spec n s)) eqn:T; [|reflexivity].
+    destruct s as [|p|l|d].
+    - reflexivity.
+    - reflexivity.
+    - simpl norm_spec. cbv iota. unfold assigns. simpl in T. simpl spec_truthy. rewrite T. reflexivity.
+    - simpl norm_spec. cbv iota. unfold assigns. simpl in T. simpl spec_truthy. rewrite T.
+      rewrite zadd_keys_norm.
+      + rewrite !map_map. reflexivity.
+      + simpl in H. rewrite Forall_forall in *. intros key Hk. apply in_map_iff in Hk. destruct Hk as (kp & <- & Hin). apply H; exact Hin.
+  Qed.
+
+  Lemma zscan_norm n : forall sp seen, in_range_specs n sp ->
+    zscan truthy n seen sp = scan truthy n seen (norm_specs n sp).
+  Proof.
+    induction sp as [|[k s] r IH]; intros seen H; simpl; [reflexivity|].
+    inversion H as [|? ? Hs Hr]; subst. simpl in Hs.
+    rewrite zscan_one_norm by exact Hs.
+    destruct (scan_one truthy n seen (norm_spec n s)) as [seen1|]; simpl; [|reflexivity].
+    apply IH. exact Hr.
+  Qed.
+
+  Lemma zscan_bad n : forall sp seen, bad_key n sp -> zscan truthy n seen sp = Err.
+  Proof.
+    induction sp as [|[k s] r IH]; intros seen (k' & d & key & p & Hin & Hk & Hr); simpl; [contradiction|].
+    destruct Hin as [E | Hin].
+    - inversion E; subst. unfold zscan_one. destruct d as [|e d']; [contradiction|]. simpl zspec_truthy. cbv iota.
+      rewrite (zadd_keys_bad n _ seen key); [reflexivity | | exact Hr].
+      apply in_map_iff. exists (key, p). auto.
+    - destruct (zscan_one truthy n seen s) as [seen1|]; simpl; [|reflexivity].
+      apply IH. exists k', d, key, p. auto.
+  Qed.
+
   Lemma zwrite_nat k : forall asg (tab : @table P), zwrite tab k (map zkey asg) = write tab k asg.
   Proof.
     induction asg as [|[m p] r IH]; intros tab; simpl; [reflexivity|].
     rewrite resolve_of_nat. destruct (m <? length tab); [apply IH | reflexivity].
   Qed.
 
-  Lemma zregister_nat n : forall sp (tab : @table P), nonneg_specs sp ->
-    zregister truthy n tab sp = register truthy n tab (nat_specs sp).
+  Lemma zwrite_norm n k : forall d (tab : @table P), length tab = n -> Forall (fun kp => resolve n (fst kp) <> None) d ->
+    zwrite tab k d = write tab k (map (norm_key n) d).
   Proof.
-    induction sp as [|[k s] r IH]; intros tab H; simpl; [reflexivity|].
+    induction d as [|[key p] r IH]; intros tab L F; simpl; [reflexivity|].
+    inversion F as [|? ? Hk Hr]; subst. simpl in Hk. unfold normZ.
+    destruct (resolve (length tab) key) as [m|] eqn:R; [|congruence].
+    assert (Hm : m < length tab) by (apply resolve_spec in R; tauto).
+    apply Nat.ltb_lt in Hm. rewrite Hm. apply IH; [apply set_nth_length | exact Hr].
+  Qed.
+
+  Lemma zwrite_assigns n k s (tab : @table P) : length tab = n -> in_range_spec n s ->
+    zwrite tab k (zassigns truthy n s) = write tab k (assigns truthy n (norm_spec n s)).
+  Proof.
+    intros L H. unfold zassigns, assigns. rewrite (zspec_truthy_norm n).
+    destruct (spec_truthy truthy (norm_spec n s)); [|reflexivity].
+    destruct s as [|p|l|d]; simpl norm_spec; cbv iota.
+    - reflexivity.
+    - rewrite <- zwrite_nat. rewrite map_map. reflexivity.
+    - apply zwrite_nat.
+    - apply zwrite_norm; auto.
+  Qed.
+
+  Lemma zregister_norm n : forall sp (tab : @table P), length tab = n -> in_range_specs n sp ->
+    zregister truthy n tab sp = register truthy n tab (norm_specs n sp).
+  Proof.
+    induction sp as [|[k s] r IH]; intros tab L H; simpl; [reflexivity|].
     inversion H as [|? ? Hs Hr]; subst. simpl in Hs.
-    rewrite zassigns_nat by exact Hs. rewrite zwrite_nat.
-    destruct (write tab k (assigns truthy n (nat_spec s))) as [t1|]; simpl; [|reflexivity].
-    apply IH. exact Hr.
+    rewrite zwrite_assigns by auto.
+    destruct (write tab k (assigns truthy (length tab) (norm_spec (length tab) s))) as [t1|] eqn:W; simpl; [|reflexivity].
+    apply IH; [|exact Hr]. apply write_length in W. exact W.
   Qed.
 
-  (* for non-negative keys the int-keyed model IS the natural-number model *)
-  Theorem zvalidate_table_nat n sp : nonneg_specs sp ->
-    zvalidate_table truthy n sp = validate_table truthy n (nat_specs sp).
+  (* for keys in [-n, n) the int-keyed model IS the natural-number model on the normalised keys *)
+  Theorem zvalidate_table_norm n sp : in_range_specs n sp ->
+    zvalidate_table truthy n sp = validate_table truthy n (norm_specs n sp).
   Proof.
-    intros H. unfold zvalidate_table, validate_table.
-    pose proof (zscan_nat n sp [] H) as S. simpl in S. rewrite S.
-    destruct (scan truthy n [] (nat_specs sp)); simpl; [|reflexivity].
-    apply zregister_nat. exact H.
+    intros H. unfold zvalidate_table, validate_table. rewrite zscan_norm by exact H.
+    destruct (scan truthy n [] (norm_specs n sp)); simpl; [|reflexivity].
+    apply zregister_norm; [apply repeat_length | exact H].
   Qed.
 
-  Lemma zvalidate_nat n sp order : nonneg_specs sp ->
-    zvalidate truthy n sp order = validate truthy n (nat_specs sp) order.
-  Proof. intros H. unfold zvalidate, validate. rewrite zvalidate_table_nat by exact H. reflexivity. Qed.
+  (* a key outside [-n, n) is rejected (by the scan) *)
+  Theorem zvalidate_table_bad n sp : bad_key n sp -> zvalidate_table truthy n sp = Err.
+  Proof. intros H. unfold zvalidate_table. rewrite zscan_bad by exact H. reflexivity. Qed.
 
-  Lemma zrequested_nat n s m p : nonneg_spec s -> (zrequested n s m p <-> requested truthy n (nat_spec s) m p).
+  Lemma zrequested_norm n s m p : in_range_spec n s -> (zrequested n s m p <-> requested truthy n (norm_spec n s) m p).
   Proof.
     intros H. destruct s as [|q|l|d]; simpl; try tauto.
     simpl in H. rewrite Forall_forall in H. rewrite in_map_iff. split.
-    - intros (key & Hin & [E | (Hneg & _)]).
-      + exists (key, p). split; auto. unfold nat_key. simpl. rewrite E, Nat2Z.id. reflexivity.
-      + specialize (H _ Hin). simpl in H. lia.
-    - intros ([key p'] & E & Hin). unfold nat_key in E. simpl in E. inversion E; subst.
-      exists key. split; auto. left. specialize (H _ Hin). simpl in H. rewrite Z2Nat.id; auto.
+    - intros (key & Hin & Ha). exists (key, p). split; auto. unfold norm_key, normZ. simpl.
+      specialize (H _ Hin). simpl in H. destruct (resolve n key) as [m'|] eqn:R; [|congruence].
+      apply resolve_spec in R. destruct R as (R & _). rewrite (addresses_fun _ _ _ _ R Ha). reflexivity.
+    - intros ([key p'] & E & Hin). unfold norm_key, normZ in E. simpl in E.
+      specialize (H _ Hin). simpl in H. destruct (resolve n key) as [m'|] eqn:R; [|congruence].
+      inversion E; subst. exists key. split; auto. apply resolve_spec in R. tauto.
   Qed.
 
-  Lemma NoDup_map_to_nat : forall l, Forall (fun z => (0 <= z)%Z) l -> NoDup l -> NoDup (map Z.to_nat l).
+  Lemma In_norm_specs n k s sp : In (k, s) (norm_specs n sp) <-> exists zs, In (k, zs) sp /\ s = norm_spec n zs.
   Proof.
-    induction l as [|a r IH]; intros F N; simpl; [constructor|].
-    inversion F as [|? ? Fa Fr]; subst. inversion N as [|? ? Na Nr]; subst.
-    constructor; auto. rewrite in_map_iff. intros (b & E & Hb).
-    rewrite Forall_forall in Fr. specialize (Fr _ Hb). assert (a = b) by lia. subst. contradiction.
-  Qed.
-
-  Lemma wf_spec_nat s : zwf_spec s -> nonneg_spec s -> wf_spec (nat_spec s).
-  Proof.
-    destruct s as [|q|l|d]; simpl; auto. intros N F.
-    rewrite map_map. rewrite (map_ext _ (fun kp => Z.to_nat (fst kp))) by reflexivity.
-    rewrite <- (map_map fst Z.to_nat). apply NoDup_map_to_nat; auto.
-    rewrite Forall_forall in *. intros z Hz. apply in_map_iff in Hz. destruct Hz as (kp & <- & Hin). apply F; exact Hin.
-  Qed.
-
-  Lemma wf_specs_nat sp : zwf_specs sp -> nonneg_specs sp -> wf_specs (nat_specs sp).
-  Proof.
-    intros (N & W) F. unfold nonneg_specs in F. unfold wf_specs, nat_specs. split.
-    - rewrite map_map. simpl. exact N.
-    - rewrite Forall_forall in *. intros a Ha. apply in_map_iff in Ha. destruct Ha as (b & <- & Hb). simpl.
-      apply wf_spec_nat; [apply W | apply F]; exact Hb.
-  Qed.
-
-  Lemma In_nat_specs k s sp : In (k, s) (nat_specs sp) <-> exists zs, In (k, zs) sp /\ s = nat_spec zs.
-  Proof.
-    unfold nat_specs. rewrite in_map_iff. split.
+    unfold norm_specs. rewrite in_map_iff. split.
     - intros ([k' zs] & E & Hin). simpl in E. inversion E; subst. exists zs. auto.
     - intros (zs & Hin & ->). exists (k, zs). auto.
   Qed.
 
-  Lemma requested_transfer n sp k m p : nonneg_specs sp ->
-    ((exists s, In (k, s) (nat_specs sp) /\ requested truthy n s m p) <-> (exists zs, In (k, zs) sp /\ zrequested n zs m p)).
+  Lemma requested_transfer n sp k m p : in_range_specs n sp ->
+    ((exists s, In (k, s) (norm_specs n sp) /\ requested truthy n s m p) <-> (exists zs, In (k, zs) sp /\ zrequested n zs m p)).
   Proof.
-    intros F. unfold nonneg_specs in F. rewrite Forall_forall in F. split.
-    - intros (s & Hin & Hr). apply In_nat_specs in Hin. destruct Hin as (zs & Hin & ->).
-      exists zs. split; auto. apply zrequested_nat; auto. apply (F _ Hin).
-    - intros (zs & Hin & Hr). exists (nat_spec zs). split; [apply In_nat_specs; eauto|].
-      apply zrequested_nat; auto. apply (F _ Hin).
+    intros F. unfold in_range_specs in F. rewrite Forall_forall in F. split.
+    - intros (s & Hin & Hr). apply In_norm_specs in Hin. destruct Hin as (zs & Hin & ->).
+      exists zs. split; auto. apply zrequested_norm; auto. apply (F _ Hin).
+    - intros (zs & Hin & Hr). exists (norm_spec n zs). split; [apply In_norm_specs; eauto|].
+      apply zrequested_norm; auto. apply (F _ Hin).
   Qed.
 
-  (* ---------------------------------------------------------------- transferred theorems (non-negative keys) *)
-  Theorem zvalidate_table_ok n sp tab : zwf_specs sp -> nonneg_specs sp -> zvalidate_table truthy n sp = Ok tab ->
+  (* ---------------------------------------------------------------- the theorems, for ALL int keys *)
+  (* Ok table: entry m is exactly what the user asked for on mode m.  No hypothesis: a request that names a mode twice,
+     in whatever way, does not get a table *)
+  Theorem zvalidate_table_ok n sp tab : zvalidate_table truthy n sp = Ok tab ->
     length tab = n /\
     (forall m k p, nth m tab None = Some (k, p) <-> exists s, In (k, s) sp /\ zrequested n s m p) /\
     (forall m, nth m tab None = None <-> forall k s p, In (k, s) sp -> ~ zrequested n s m p).
   Proof.
-    intros W F H. rewrite zvalidate_table_nat in H by exact F.
-    destruct (validate_table_ok truthy n _ tab (wf_specs_nat sp W F) H) as (L & A & B).
+    intros H. destruct (in_range_dec n sp) as [F | B]; [|rewrite zvalidate_table_bad in H by exact B; discriminate H].
+    rewrite zvalidate_table_norm in H by exact F.
+    destruct (validate_table_ok_any truthy n _ tab H) as (L & A & N).
+    pose proof F as F'. unfold in_range_specs in F'. rewrite Forall_forall in F'.
     split; [exact L|]. split.
     - intros m k p. rewrite A. apply requested_transfer; exact F.
-    - intros m. rewrite B. split.
-      + intros Hno k zs p Hin Hr. apply (Hno k (nat_spec zs) p); [apply In_nat_specs; eauto|].
-        unfold nonneg_specs in F. rewrite Forall_forall in F. apply zrequested_nat; auto. apply (F _ Hin).
-      + intros Hno k s p Hin Hr. apply In_nat_specs in Hin. destruct Hin as (zs & Hin & ->).
-        apply (Hno k zs p Hin). unfold nonneg_specs in F. rewrite Forall_forall in F.
-        apply zrequested_nat; auto. apply (F _ Hin).
+    - intros m. rewrite N. split.
+      + intros Hno k zs p Hin Hr. apply (Hno k (norm_spec n zs) p); [apply In_norm_specs; eauto|].
+        apply zrequested_norm; auto. apply (F' _ Hin).
+      + intros Hno k s p Hin Hr. apply In_norm_specs in Hin. destruct Hin as (zs & Hin & ->).
+        apply (Hno k zs p Hin). apply zrequested_norm; auto. apply (F' _ Hin).
   Qed.
 
-  Lemma double_transfer n sp : nonneg_specs sp -> (double truthy n (nat_specs sp) <-> zdouble n sp).
+  (* a mode gets at most one (constraint, parameter) when the table exists *)
+  Lemma zrequest_unique n sp tab : zvalidate_table truthy n sp = Ok tab ->
+    forall m k1 s1 p1 k2 s2 p2, In (k1, s1) sp -> In (k2, s2) sp -> zrequested n s1 m p1 -> zrequested n s2 m p2 ->
+    k1 = k2 /\ p1 = p2.
   Proof.
-    intros F. pose proof F as F'. unfold nonneg_specs in F'. rewrite Forall_forall in F'. split.
-    - intros (k1 & s1 & k2 & s2 & m & I1 & I2 & Hne & H1 & H2).
-      apply In_nat_specs in I1, I2. destruct I1 as (z1 & I1 & ->). destruct I2 as (z2 & I2 & ->).
-      apply hits_requested in H1, H2. destruct H1 as (p1 & H1). destruct H2 as (p2 & H2).
-      exists k1, z1, k2, z2, m, p1, p2. repeat split; auto; apply zrequested_nat; auto; [apply (F' _ I1) | apply (F' _ I2)].
-    - intros (k1 & z1 & k2 & z2 & m & p1 & p2 & I1 & I2 & Hne & H1 & H2).
-      exists k1, (nat_spec z1), k2, (nat_spec z2), m.
-      repeat split; auto; try (apply In_nat_specs; eauto); apply hits_requested; [exists p1 | exists p2];
-        apply zrequested_nat; auto; [apply (F' _ I1) | apply (F' _ I2)].
+    intros H m k1 s1 p1 k2 s2 p2 I1 I2 R1 R2.
+    destruct (zvalidate_table_ok n sp tab H) as (_ & A & _).
+    assert (X1 : nth m tab None = Some (k1, p1)) by (apply A; exists s1; auto).
+    assert (X2 : nth m tab None = Some (k2, p2)) by (apply A; exists s2; auto).
+    rewrite X1 in X2. inversion X2; auto.
   Qed.
 
-  Lemma out_of_range_transfer n sp : nonneg_specs sp -> (out_of_range truthy n (nat_specs sp) <-> zout_of_range n sp).
+  Lemma double_transfer n sp : in_range_specs n sp -> (double truthy n (norm_specs n sp) -> zdouble n sp).
   Proof.
-    intros F. pose proof F as F'. unfold nonneg_specs in F'. rewrite Forall_forall in F'. split.
-    - intros (m & (k & s & Hin & Hh) & Hge). apply In_nat_specs in Hin. destruct Hin as (zs & Hin & ->).
-      apply hits_requested in Hh. destruct Hh as (p & Hr). exists k, zs, m, p. repeat split; auto.
-      apply zrequested_nat; auto. apply (F' _ Hin).
-    - intros (k & zs & m & p & Hin & Hr & Hge). exists m. split; auto. exists k, (nat_spec zs).
-      split; [apply In_nat_specs; eauto|]. apply hits_requested. exists p. apply zrequested_nat; auto. apply (F' _ Hin).
+    intros F. pose proof F as F'. unfold in_range_specs in F'. rewrite Forall_forall in F'.
+    intros (k1 & s1 & k2 & s2 & m & I1 & I2 & Hne & H1 & H2).
+    apply In_norm_specs in I1, I2. destruct I1 as (z1 & I1 & ->). destruct I2 as (z2 & I2 & ->).
+    apply hits_requested in H1, H2. destruct H1 as (p1 & H1). destruct H2 as (p2 & H2).
+    exists k1, z1, k2, z2, m, p1, p2. repeat split; auto; apply zrequested_norm; auto; [apply (F' _ I1) | apply (F' _ I2)].
   Qed.
 
-  Theorem zvalidate_table_err_iff n sp : zwf_specs sp -> nonneg_specs sp ->
-    (zvalidate_table truthy n sp = Err <-> zdouble n sp \/ zout_of_range n sp).
+  Lemma out_of_range_transfer n sp : in_range_specs n sp -> (out_of_range truthy n (norm_specs n sp) -> zno_mode n sp).
   Proof.
-    intros W F. rewrite zvalidate_table_nat by exact F.
-    rewrite (validate_table_err_iff truthy n _ (wf_specs_nat sp W F)).
-    rewrite double_transfer, out_of_range_transfer by exact F. tauto.
+    intros F. pose proof F as F'. unfold in_range_specs in F'. rewrite Forall_forall in F'.
+    intros (m & (k & s & Hin & Hh) & Hge). apply In_norm_specs in Hin. destruct Hin as (zs & Hin & ->).
+    apply hits_requested in Hh. destruct Hh as (p & Hr). left. exists k, zs, m, p. repeat split; auto.
+    apply zrequested_norm; auto. apply (F' _ Hin).
   Qed.
 
-  Theorem zvalidate_spec n sp order c : zwf_specs sp -> nonneg_specs sp -> zvalidate truthy n sp order = Ok c ->
+  (* the normalised values are well formed, or some dict names a mode twice *)
+  Lemma norm_wf_or_alias n : forall sp, in_range_specs n sp -> Forall (fun a => zwf_spec (snd a)) sp ->
+    Forall (fun a => wf_spec (snd a)) (norm_specs n sp) \/ zself_alias n sp.
+  Proof.
+    induction sp as [|[k s] r IH]; intros F W; [left; constructor|].
+    inversion F as [|? ? Fs Fr]; subst. inversion W as [|? ? Ws Wr]; subst. simpl in Fs, Ws.
+    destruct (IH Fr Wr) as [IHw | (k' & d & key1 & p1 & key2 & p2 & m & Hin & H1 & H2 & Hne & A1 & A2)];
+      [|right; exists k', d, key1, p1, key2, p2, m; split; [right; exact Hin | auto]].
+    destruct s as [|q|l|d]; try (left; constructor; [exact I | exact IHw]).
+    simpl in Fs, Ws.
+    destruct (nodup_or_collision (fun kp : Z * P => normZ n (fst kp)) d) as [N | (l1 & a & l2 & b & l3 & E & Hf)].
+    - left. constructor; [|exact IHw]. simpl. rewrite map_map. exact N.
+    - right. destruct a as [key1 p1]. destruct b as [key2 p2]. simpl in Hf.
+      assert (Hne : key1 <> key2).
+      { subst d. rewrite map_app in Ws. simpl in Ws. apply NoDup_remove_2 in Ws. intros ->. apply Ws.
+        apply in_or_app. right. rewrite map_app. apply in_or_app. right. left. reflexivity. }
+      assert (I1 : In (key1, p1) d) by (subst d; apply in_or_app; right; left; reflexivity).
+      assert (I2 : In (key2, p2) d) by (subst d; apply in_or_app; right; right; apply in_or_app; right; left; reflexivity).
+      rewrite Forall_forall in Fs. pose proof (Fs _ I1) as R1. pose proof (Fs _ I2) as R2. simpl in R1, R2.
+      unfold normZ in Hf.
+      destruct (resolve n key1) as [m1|] eqn:E1; [|congruence]. destruct (resolve n key2) as [m2|] eqn:E2; [|congruence].
+      subst m2. apply resolve_spec in E1, E2.
+      exists k, d, key1, p1, key2, p2, m1. split; [left; reflexivity|]. tauto.
+  Qed.
+
+  (* Err  <->  two keywords address one mode, or one dict names a mode twice, or a keyword addresses no existing mode *)
+  Theorem zvalidate_table_err_iff n sp : zwf_specs sp ->
+    (zvalidate_table truthy n sp = Err <-> zdouble n sp \/ zself_alias n sp \/ zno_mode n sp).
+  Proof.
+    intros (N & W). split.
+    - intros H. destruct (in_range_dec n sp) as [F | (k & d & key & p & Hin & Hk & Hr)].
+      + rewrite zvalidate_table_norm in H by exact F.
+        destruct (norm_wf_or_alias n sp F W) as [Wn | Al]; [|right; left; exact Al].
+        assert (Wf : wf_specs (norm_specs n sp)).
+        { split; [|exact Wn]. unfold norm_specs. rewrite map_map. simpl. exact N. }
+        apply (validate_table_err_iff truthy n _ Wf) in H. destruct H as [D | O].
+        * left. apply double_transfer; auto.
+        * right; right. apply out_of_range_transfer; auto.
+      + right; right. apply resolve_none in Hr. destruct Hr as [Hr | Hr].
+        * left. exists k, (ZDict d), (Z.to_nat key), p. split; auto. split; [|lia].
+          simpl. exists key. split; auto. left. rewrite Z2Nat.id; lia.
+        * right. exists k, d, key, p. auto.
+    - intros H. destruct (zvalidate_table truthy n sp) as [tab|] eqn:E; [exfalso|reflexivity].
+      destruct (zvalidate_table_ok n sp tab E) as (L & A & _).
+      destruct H as [(k1 & s1 & k2 & s2 & m & p1 & p2 & I1 & I2 & Hne & R1 & R2) | [Al | [Om | Bl]]].
+      + destruct (zrequest_unique n sp tab E m k1 s1 p1 k2 s2 p2 I1 I2 R1 R2) as (Ek & _). contradiction.
+      + destruct Al as (k & d & key1 & p1 & key2 & p2 & m & Hin & H1 & H2 & Hne & A1 & A2).
+        destruct (in_range_dec n sp) as [F | B]; [|rewrite zvalidate_table_bad in E by exact B; discriminate E].
+        rewrite zvalidate_table_norm in E by exact F. unfold validate_table in E.
+        destruct (scan truthy n [] (norm_specs n sp)) as [seen|] eqn:S; simpl in E; [|discriminate E].
+        apply scan_wf in S. rewrite Forall_forall in S.
+        assert (Hn : In (k, norm_spec n (ZDict d)) (norm_specs n sp)) by (apply In_norm_specs; eauto).
+        specialize (S _ Hn). simpl in S. rewrite map_map in S.
+        unfold in_range_specs in F. rewrite Forall_forall in F. pose proof (F _ Hin) as Fd. simpl in Fd. rewrite Forall_forall in Fd.
+        assert (X : (key1, p1) = (key2, p2)).
+        { apply (NoDup_map_inj_in (fun kp : Z * P => fst (norm_key n kp)) d S); auto. simpl. unfold normZ.
+          pose proof (Fd _ H1) as R1. pose proof (Fd _ H2) as R2. simpl in R1, R2.
+          destruct (resolve n key1) as [m1|] eqn:E1; [|congruence]. destruct (resolve n key2) as [m2|] eqn:E2; [|congruence].
+          apply resolve_spec in E1, E2. destruct E1 as (E1 & _). destruct E2 as (E2 & _).
+          rewrite (addresses_fun _ _ _ _ E1 A1), (addresses_fun _ _ _ _ E2 A2). reflexivity. }
+        inversion X. contradiction.
+      + destruct Om as (k & s & m & p & Hin & Hr & Hge).
+        assert (X : nth m tab None = Some (k, p)) by (apply A; exists s; auto).
+        rewrite nth_overflow in X by lia. discriminate X.
+      + destruct Bl as (k & d & key & p & Hin & Hk & Hlt).
+        rewrite zvalidate_table_bad in E; [discriminate E|]. exists k, d, key, p. repeat split; auto. apply resolve_none. right. exact Hlt.
+  Qed.
+
+  Theorem zvalidate_spec n sp order c : zvalidate truthy n sp order = Ok c ->
     order < n /\
     (forall k p, c = Some (k, p) <-> exists s, In (k, s) sp /\ zrequested n s order p) /\
     (c = None <-> forall k s p, In (k, s) sp -> ~ zrequested n s order p).
   Proof.
-    intros W F H. unfold zvalidate in H.
+    intros H. unfold zvalidate in H.
     destruct (zvalidate_table truthy n sp) as [tab|] eqn:E; simpl in H; [|discriminate H].
     destruct (order <? n) eqn:L; [|discriminate H]. apply Nat.ltb_lt in L. inversion H; subst.
-    destruct (zvalidate_table_ok n sp tab W F E) as (_ & A & B).
+    destruct (zvalidate_table_ok n sp tab E) as (_ & A & B).
     split; [exact L|]. split; [intros k p; apply A | apply B].
   Qed.
 
-  Lemma zvalidate_err_iff n sp order : zwf_specs sp -> nonneg_specs sp ->
-    (zvalidate truthy n sp order = Err <-> zdouble n sp \/ zout_of_range n sp \/ n <= order).
+  Lemma zvalidate_err_iff n sp order : zwf_specs sp ->
+    (zvalidate truthy n sp order = Err <-> zdouble n sp \/ zself_alias n sp \/ zno_mode n sp \/ n <= order).
   Proof.
-    intros W F. rewrite zvalidate_nat by exact F.
-    rewrite (validate_err_iff truthy n _ order (wf_specs_nat sp W F)).
-    rewrite double_transfer, out_of_range_transfer by exact F. tauto.
+    intros Wf. unfold zvalidate. pose proof (zvalidate_table_err_iff n sp Wf) as T.
+    destruct (zvalidate_table truthy n sp) as [tab|] eqn:E; simpl.
+    - destruct (order <? n) eqn:L.
+      + apply Nat.ltb_lt in L. split; [discriminate|]. intros [D | [Al | [O | G]]]; [| | |lia];
+          (assert (X : @Ok (@table P) tab = Err) by (apply T; tauto); discriminate X).
+      + apply Nat.ltb_ge in L. split; auto.
+    - split; [|reflexivity]. intros _. destruct T as [T _]. destruct (T eq_refl) as [D | [Al | O]]; auto.
   Qed.
 
   (* the call site: the twelve keywords *)
@@ -282,19 +430,15 @@ Section Keys.
     - rewrite map_map. rewrite (map_ext _ (fun x => x)) by reflexivity. rewrite map_id. apply all_kinds_NoDup.
     - apply Forall_forall. intros a Ha. apply in_map_iff in Ha. destruct Ha as (k & <- & _). simpl. apply W.
   Qed.
-  Lemma zkeywords_nonneg (f : kind -> zspec) : (forall k, nonneg_spec (f k)) -> nonneg_specs (zkeywords f).
-  Proof.
-    intros W. apply Forall_forall. intros a Ha. apply in_map_iff in Ha. destruct Ha as (k & <- & _). simpl. apply W.
-  Qed.
 
-  Theorem zkeywords_table n (f : kind -> zspec) tab : (forall k, zwf_spec (f k)) -> (forall k, nonneg_spec (f k)) ->
+  Theorem zkeywords_table n (f : kind -> zspec) tab :
     zvalidate_table truthy n (zkeywords f) = Ok tab ->
     length tab = n /\
     (forall m k p, nth m tab None = Some (k, p) <-> zrequested n (f k) m p) /\
     (forall m, nth m tab None = None <-> forall k p, ~ zrequested n (f k) m p).
   Proof.
-    intros W F H.
-    destruct (zvalidate_table_ok n _ tab (zkeywords_wf f W) (zkeywords_nonneg f F) H) as (L & A & B).
+    intros H.
+    destruct (zvalidate_table_ok n _ tab H) as (L & A & B).
     split; [exact L|]. split.
     - intros m k p. rewrite A. split.
       + intros (s & Hin & Hr). apply zkeywords_In in Hin. subst s. exact Hr.
@@ -304,19 +448,28 @@ Section Keys.
       + intros Hno k s p Hin. apply zkeywords_In in Hin. subst s. apply Hno.
   Qed.
 
-  Theorem zkeywords_err_iff n (f : kind -> zspec) : (forall k, zwf_spec (f k)) -> (forall k, nonneg_spec (f k)) ->
+  Theorem zkeywords_err_iff n (f : kind -> zspec) : (forall k, zwf_spec (f k)) ->
     (zvalidate_table truthy n (zkeywords f) = Err <->
      (exists k1 k2 m p1 p2, k1 <> k2 /\ zrequested n (f k1) m p1 /\ zrequested n (f k2) m p2) \/
-     (exists k m p, zrequested n (f k) m p /\ n <= m)).
+     (exists k d key1 p1 key2 p2 m, f k = ZDict d /\ In (key1, p1) d /\ In (key2, p2) d /\ key1 <> key2 /\
+                                    addresses n key1 m /\ addresses n key2 m) \/
+     (exists k m p, zrequested n (f k) m p /\ n <= m) \/
+     (exists k d key p, f k = ZDict d /\ In (key, p) d /\ (key < - Z.of_nat n)%Z)).
   Proof.
-    intros W F. rewrite (zvalidate_table_err_iff n _ (zkeywords_wf f W) (zkeywords_nonneg f F)).
-    unfold zdouble, zout_of_range. split.
-    - intros [(k1 & s1 & k2 & s2 & m & p1 & p2 & I1 & I2 & Hne & H1 & H2) | (k & s & m & p & I & Hr & Hge)].
+    intros W. rewrite (zvalidate_table_err_iff n _ (zkeywords_wf f W)).
+    unfold zdouble, zself_alias, zno_mode. split.
+    - intros [(k1 & s1 & k2 & s2 & m & p1 & p2 & I1 & I2 & Hne & H1 & H2) | [(k & d & key1 & p1 & key2 & p2 & m & I & R) |
+              [(k & s & m & p & I & Hr & Hge) | (k & d & key & p & I & R)]]].
       + apply zkeywords_In in I1, I2. subst. left. exists k1, k2, m, p1, p2. auto.
-      + apply zkeywords_In in I. subst. right. exists k, m, p. auto.
-    - intros [(k1 & k2 & m & p1 & p2 & Hne & H1 & H2) | (k & m & p & Hr & Hge)].
+      + apply zkeywords_In in I. right; left. exists k, d, key1, p1, key2, p2, m. split; [symmetry; exact I | exact R].
+      + apply zkeywords_In in I. subst. right; right; left. exists k, m, p. auto.
+      + apply zkeywords_In in I. right; right; right. exists k, d, key, p. split; [symmetry; exact I | exact R].
+    - intros [(k1 & k2 & m & p1 & p2 & Hne & H1 & H2) | [(k & d & key1 & p1 & key2 & p2 & m & I & R) |
+              [(k & m & p & Hr & Hge) | (k & d & key & p & I & R)]]].
       + left. exists k1, (f k1), k2, (f k2), m, p1, p2. repeat split; auto; apply zkeywords_In; reflexivity.
-      + right. exists k, (f k), m, p. repeat split; auto. apply zkeywords_In; reflexivity.
+      + right; left. exists k, d, key1, p1, key2, p2, m. split; [apply zkeywords_In; symmetry; exact I | exact R].
+      + right; right; left. exists k, (f k), m, p. repeat split; auto. apply zkeywords_In; reflexivity.
+      + right; right; right. exists k, d, key, p. split; [apply zkeywords_In; symmetry; exact I | exact R].
   Qed.
 
   (* ---------------------------------------------------------------- the decomposition over the int-keyed validation *)
@@ -324,120 +477,57 @@ Section Keys.
     Context {M : Type} (dM : M) (op : kind -> P -> M -> M) (msub madd : M -> M -> M).
 
     Theorem zcp_requested_in_range n sp (E : env (M := M)) i0 fixed n_outer n_inner zero fs m k s p :
-      zwf_specs sp -> nonneg_specs sp ->
       constrained_cp dM op (zvalidate truthy n sp) msub madd E n i0 fixed n_outer n_inner zero = Ok fs ->
       m < length fs -> init_computed i0 = true \/ (In m (modes_list n fixed) /\ 0 < n_outer) ->
       In (k, s) sp -> zrequested n s m p ->
       exists v, nth m fs dM = op k p v.
     Proof.
-      intros Wf F H Hm Hc Hin Hr. apply cp_skeleton in H. destruct H as (_ & R & _).
+      intros H Hm Hc Hin Hr. apply cp_skeleton in H. destruct H as (_ & R & _).
       destruct (R m Hm Hc) as (c & v & V & Ey).
       apply zvalidate_spec in V; auto. destruct V as (_ & A & _).
       assert (X : c = Some (k, p)) by (apply A; exists s; auto).
       subst c. exists v. exact Ey.
     Qed.
 
-    Theorem zcp_rejects n sp (E : env (M := M)) i0 fixed n_outer n_inner zero : zwf_specs sp -> nonneg_specs sp ->
-      zdouble n sp \/ zout_of_range n sp ->
-      constrained_cp dM op (zvalidate truthy n sp) msub madd E n i0 fixed n_outer n_inner zero = Err.
-    Proof.
-      intros Wf F H. apply cp_err_on_double. apply zvalidate_err_iff; auto. tauto.
-    Qed.
-
-    Theorem zcp_ok_no_double n sp (E : env (M := M)) i0 fixed n_outer n_inner zero fs : zwf_specs sp -> nonneg_specs sp ->
+    (* every mode: the returned factor (computed initialisation, or updated at least once) is prox_of c v where c is exactly
+       the request made for that mode - the plain least-squares iterate / raw initial factor iff nobody made one *)
+    Theorem zcp_validated n sp (E : env (M := M)) i0 fixed n_outer n_inner zero fs m :
       constrained_cp dM op (zvalidate truthy n sp) msub madd E n i0 fixed n_outer n_inner zero = Ok fs ->
-      ~ zdouble n sp /\ ~ zout_of_range n sp.
+      m < length fs -> init_computed i0 = true \/ (In m (modes_list n fixed) /\ 0 < n_outer) ->
+      exists c v, nth m fs dM = prox_of op c v /\
+        (forall k p, c = Some (k, p) <-> exists s, In (k, s) sp /\ zrequested n s m p) /\
+        (c = None <-> forall k s p, In (k, s) sp -> ~ zrequested n s m p).
     Proof.
-      intros Wf F H. split; intro X.
-      - rewrite zcp_rejects in H; auto; discriminate H.
-      - rewrite zcp_rejects in H; auto; discriminate H.
+      intros H Hm Hc. apply cp_skeleton in H. destruct H as (_ & R & _).
+      destruct (R m Hm Hc) as (c & v & V & Ey). apply zvalidate_spec in V. destruct V as (_ & A & B).
+      exists c, v. auto.
     Qed.
 
     (* composition with "the operator maps into its constraint set" (the subject of C12): the returned factor is feasible *)
     Theorem zcp_feasible (feas : kind -> P -> M -> Prop) n sp (E : env (M := M)) i0 fixed n_outer n_inner zero fs m k s p :
       (forall k p v, feas k p (op k p v)) ->
-      zwf_specs sp -> nonneg_specs sp ->
       constrained_cp dM op (zvalidate truthy n sp) msub madd E n i0 fixed n_outer n_inner zero = Ok fs ->
       m < length fs -> init_computed i0 = true \/ (In m (modes_list n fixed) /\ 0 < n_outer) ->
       In (k, s) sp -> zrequested n s m p ->
       feas k p (nth m fs dM).
     Proof.
-      intros Hf Wf F H Hm Hc Hin Hr.
-      destruct (zcp_requested_in_range n sp E i0 fixed n_outer n_inner zero fs m k s p Wf F H Hm Hc Hin Hr) as (v & ->).
+      intros Hf H Hm Hc Hin Hr.
+      destruct (zcp_requested_in_range n sp E i0 fixed n_outer n_inner zero fs m k s p H Hm Hc Hin Hr) as (v & ->).
       apply Hf.
     Qed.
 
-    (* whatever the keys: a successful run means the validation succeeded for `order = 0` *)
-    Lemma zcp_ok_validated n sp (E : env (M := M)) i0 fixed n_outer n_inner zero fs :
-      constrained_cp dM op (zvalidate truthy n sp) msub madd E n i0 fixed n_outer n_inner zero = Ok fs ->
-      exists tab, zvalidate_table truthy n sp = Ok tab /\ 0 < n.
+    Theorem zcp_rejects n sp (E : env (M := M)) i0 fixed n_outer n_inner zero : zwf_specs sp ->
+      zdouble n sp \/ zself_alias n sp \/ zno_mode n sp ->
+      constrained_cp dM op (zvalidate truthy n sp) msub madd E n i0 fixed n_outer n_inner zero = Err.
     Proof.
-      unfold constrained_cp, zvalidate. destruct (zvalidate_table truthy n sp) as [tab|]; simpl; [|discriminate].
-      destruct n; simpl; [discriminate|]. intros _. exists tab. split; auto. lia.
+      intros Wf H. apply cp_err_on_double. apply zvalidate_err_iff; auto. tauto.
+    Qed.
+
+    Theorem zcp_ok_no_double n sp (E : env (M := M)) i0 fixed n_outer n_inner zero fs : zwf_specs sp ->
+      constrained_cp dM op (zvalidate truthy n sp) msub madd E n i0 fixed n_outer n_inner zero = Ok fs ->
+      ~ zdouble n sp /\ ~ zself_alias n sp /\ ~ zno_mode n sp.
+    Proof.
+      intros Wf H. repeat split; intro X; rewrite zcp_rejects in H; auto; discriminate H.
     Qed.
   End CP.
 End Keys.
-
-(* ---------------------------------------------------------------- refutations: a negative key aliases a mode *)
-(* parameters are naturals (0 falsy); order 3; non_negative by key 2, l1_reg by key -1: both address the last mode.
-   The scan compares 2 with -1 and accepts; the registration writes index 2 twice; the non_negative request is lost (the later keyword wins). *)
-Definition alias_truthy (p : nat) : bool := negb (Nat.eqb p 0).
-Definition alias_spec (k : kind) : @zspec nat :=
-  match k with
-  | KNonNeg => ZDict [(2%Z, 1)]
-  | KL1 => ZDict [((-1)%Z, 7)]
-  | _ => ZNone
-  end.
-
-Lemma alias_wf : forall k, zwf_spec (alias_spec k).
-Proof. intros k; destruct k; simpl; auto; repeat constructor; simpl; tauto. Qed.
-
-Theorem alias_accepted :
-  (forall k, zwf_spec (alias_spec k)) /\
-  zvalidate_table alias_truthy 3 (zkeywords alias_spec) = Ok [None; None; Some (KL1, 7)] /\
-  KNonNeg <> KL1 /\ zrequested alias_truthy 3 (alias_spec KNonNeg) 2 1 /\ zrequested alias_truthy 3 (alias_spec KL1) 2 7.
-Proof.
-  split; [exact alias_wf|]. split; [vm_compute; reflexivity|]. split; [discriminate|]. split.
-  - simpl. exists 2%Z. split; [left; reflexivity|]. left. reflexivity.
-  - simpl. exists (-1)%Z. split; [left; reflexivity|]. right. split; [lia | reflexivity].
-Qed.
-
-(* so the `iff` statements fail without the hypothesis on the keys *)
-Theorem table_iff_requested_refuted : exists (n : nat) (f : kind -> @zspec nat) (tab : @table nat) (m : nat) (k : kind) (p : nat),
-  (forall k, zwf_spec (f k)) /\ zvalidate_table alias_truthy n (zkeywords f) = Ok tab /\
-  zrequested alias_truthy n (f k) m p /\ nth m tab None <> Some (k, p).
-Proof.
-  exists 3, alias_spec, [None; None; Some (KL1, 7)], 2, KNonNeg, 1.
-  destruct alias_accepted as (W & T & _ & R1 & _). repeat split; auto. simpl. discriminate.
-Qed.
-
-Theorem reject_iff_double_refuted : exists (n : nat) (f : kind -> @zspec nat),
-  (forall k, zwf_spec (f k)) /\
-  (exists k1 k2 m p1 p2, k1 <> k2 /\ zrequested alias_truthy n (f k1) m p1 /\ zrequested alias_truthy n (f k2) m p2) /\
-  zvalidate_table alias_truthy n (zkeywords f) <> Err.
-Proof.
-  exists 3, alias_spec. destruct alias_accepted as (W & T & Hne & R1 & R2). split; [exact W|]. split.
-  - exists KNonNeg, KL1, 2, 1, 7. auto.
-  - rewrite T. discriminate.
-Qed.
-
-(* the decomposition: factors are tags (kind id, parameter) of the operator that produced them (0,0 = raw / initial).
-   The request is accepted and the factor returned for the mode on which non_negative was requested is an output of the
-   l1_reg operator, not of the non_negative operator. *)
-Definition alias_op (k : kind) (p : nat) (_ : nat * nat) : nat * nat := (S (kind_id k), p).
-Definition alias_env : env (M := nat * nat) := mkEnv (fun _ _ _ _ => (0, 0)) (fun _ _ _ _ _ _ => false) (fun _ _ _ => false).
-
-Theorem cp_alias_refuted : exists (n : nat) (f : kind -> @zspec nat) (fs : list (nat * nat)) (m : nat) (p : nat),
-  (forall k, zwf_spec (f k)) /\
-  constrained_cp (0, 0) alias_op (zvalidate alias_truthy n (zkeywords f)) (fun _ _ => (0, 0)) (fun _ _ => (0, 0)) alias_env
-                 n (IComputed [(0, 0); (0, 0); (0, 0)]) [] 2 1 (0, 0) = Ok fs /\
-  zdouble alias_truthy n (zkeywords f) /\
-  zrequested alias_truthy n (f KNonNeg) m p /\ (forall v, nth m fs (0, 0) <> alias_op KNonNeg p v).
-Proof.
-  exists 3, alias_spec, [(0, 0); (0, 0); (S (kind_id KL1), 7)], 2, 1.
-  destruct alias_accepted as (W & T & Hne & R1 & R2).
-  split; [exact W|]. split; [vm_compute; reflexivity|]. split; [|split; [exact R1|]].
-  - exists KNonNeg, (alias_spec KNonNeg), KL1, (alias_spec KL1), 2, 1, 7.
-    repeat split; auto; apply zkeywords_In; reflexivity.
-  - intros v. simpl. unfold alias_op. simpl. discriminate.
-Qed.
